@@ -632,20 +632,25 @@ def scenario_scaler(c):
     base = dict(maxiter=K, maxfun=10 ** 6, maxls=20, maxcor=c.get("maxcor", 5), ftol=c.get("ftol", 0.0), gtol=1e-10)
     for name, p in problems().items():
         bad = {}
-        for s in (c.get("scale", 2.5), 1e-3, 1e3, 0.37):
+        # finite-difference modes: only powers of two scale the difference quotients exactly in float64
+        scales = (0.25, 4.0, 2.0 ** -9, 2.0 ** 9) if c.get("jac") else (c.get("scale", 2.5), 1e-3, 1e3, 0.37)
+        for s in scales:
             calls = []
 
             def scaler(x, g, lb, ub):
                 calls.append(dict(x=np.array(x).copy(), g=np.array(g).copy(), lb=np.array(lb).copy(), ub=np.array(ub).copy()))
                 return s
             LS = Logged(p)
-            S = run_once(p, dict(base), L=LS, callback_kind="false", extra=dict(gradient_scaler=scaler))
+            jx = {}
+            if c.get("jac"):
+                jx["jac"] = None if c["jac"] == "none" else c["jac"]
+            S = run_once(p, dict(base), L=LS, callback_kind="false", extra=dict(gradient_scaler=scaler, **jx))
             LE = Logged(p, scale_obj=s)
-            E = run_once(p, dict(base), L=LE, callback_kind="false")
+            E = run_once(p, dict(base), L=LE, callback_kind="false", extra=dict(jx))
             if S["exc"] or E["exc"]:
                 bad["no_exception"] = "raised %r" % (S["exc"] or E["exc"],)
                 continue
-            d = _same_state(S["snap"], E["snap"], fields=("x", "fun", "jac", "nfev", "njev", "nit", "sk", "yk", "message", "success"), tol=1e-9)
+            d = _same_state(S["snap"], E["snap"], fields=("x", "fun", "jac", "nfev", "njev", "nit", "sk", "yk", "message", "success"), tol=1e-9 if not c.get("jac") else 1e-5)
             if d:
                 bad.setdefault("C17.same_result_as_scaled_objective", "s=%g: %s" % (s, "; ".join(d)[:300]))
             if len(LS.fcalls) != len(LE.fcalls) or any(not _close(a[0], b[0], 1e-12) for a, b in zip(LS.fcalls, LE.fcalls)):
@@ -653,7 +658,10 @@ def scenario_scaler(c):
             if len(S["states"]) != len(E["states"]) or any(_same_state(a["snap"], b["snap"], tol=1e-9) for a, b in zip(S["states"], E["states"])):
                 bad.setdefault("C17.same_callback_states", "s=%g: callback states differ" % s)
             lb, ub = p["bounds"][:, 0], p["bounds"][:, 1]
-            if len(calls) != 1 or not np.array_equal(calls[0]["x"], LS.gcalls[0][0]) or not np.array_equal(calls[0]["g"], LS.gcalls[0][1]) \
+            if c.get("jac"):
+                if len(calls) != 1:
+                    bad.setdefault("C17.scaler_called_once_with_start_point_and_unscaled_gradient", "scaler invoked %d times" % len(calls))
+            elif len(calls) != 1 or not np.array_equal(calls[0]["x"], LS.gcalls[0][0]) or not np.array_equal(calls[0]["g"], LS.gcalls[0][1]) \
                     or not np.array_equal(calls[0]["lb"], lb) or not np.array_equal(calls[0]["ub"], ub):
                 bad.setdefault("C17.scaler_called_once_with_start_point_and_unscaled_gradient", "scaler invoked %d times / wrong arguments" % len(calls))
         # target tested on the unscaled value
